@@ -124,6 +124,41 @@ theorem no_stale_reads7 : staleReads Gen.prods7 Gen.terms7 = [] := by decide +ke
 theorem no_stale_reads5 : staleReads Gen.prods5 Gen.terms5 = [] := by decide +kernel
 example : (staleSyms Gen.prods7 Gen.terms7).length = 1 ∧ staleSyms Gen.prods5 Gen.terms5 = [] := by decide +kernel
 
+/-! ### Sensitivity of the analysis on the real actions
+
+For every path the analysis accepts and every node literal in it that holds two different right-hand-side values
+`$i`, `$j` in two fields, the variant of the path that stores `$i` in both places (the slip "wrong `$n`" in an
+action) is rejected — decided on the regenerated terms.  The obligation `not_linear7 = []` is therefore not met
+vacuously by the shape of the data: it would break for each of these 226 (php7) / 250-odd (php5) single-symbol
+edits. -/
+
+def isArg : Tm → Option Nat
+  | .arg i => some i
+  | .argAt _ i => some i
+  | _ => none
+
+/-- first pair of fields that hold two different `$i`, `$j` whole: the second is overwritten with the first -/
+def dupFields : List Tm → Option (List Tm)
+  | [] => none
+  | t :: r =>
+    match isArg t with
+    | some i =>
+      match r.findIdx? (fun u => match isArg u with | some j => j != i | none => false) with
+      | some k => some (t :: r.set k t)
+      | none => (dupFields r).map (t :: ·)
+    | none => (dupFields r).map (t :: ·)
+
+def dupMutants (p : TPath) : List TPath :=
+  (List.range p.objs.length).filterMap (fun o =>
+    match p.objs[o]? with
+    | some ob => (dupFields ob.fields).map (fun fs => { p with objs := p.objs.set o { ob with fields := fs } })
+    | none => none)
+
+theorem dup_mutants_rejected7 : ((Gen.terms7.filter linOK).flatMap dupMutants).all (fun p => !linOK p) = true := by decide +kernel
+theorem dup_mutants_rejected5 : ((Gen.terms5.filter linOK).flatMap dupMutants).all (fun p => !linOK p) = true := by decide +kernel
+example : 200 < ((Gen.terms7.filter linOK).flatMap dupMutants).length ∧ 200 < ((Gen.terms5.filter linOK).flatMap dupMutants).length := by
+  decide +kernel
+
 /- non-vacuity: a path that stores `$1` twice is rejected; a path that appends to a field of `$1` is accepted;
    the same path returning `$1` next to the `$2` it has appended is rejected -/
 def exDup : TPath :=
